@@ -102,6 +102,10 @@ structure KSt where
 
 def KSt.emit (s : KSt) (l : String) : KSt := { s with out := l :: s.out }
 
+/-- `L` lines are printed by the harness's own configuration object when the library consults it;
+    `sim::default_config` prints nothing -/
+def KSt.emitL (s : KSt) (l : String) : KSt := if s.net.cfg.defaultConfig then s else s.emit l
+
 def KSt.busy (s : KSt) (i : Nat) : Bool := s.pend.any (fun p => p.1 == i)
 def KSt.clearT (s : KSt) (i : Nat) : KSt := { s with pend := s.pend.filter (fun p => p.1 != i) }
 def KSt.clearH (s : KSt) (h : Nat) : KSt := { s with pend := s.pend.filter (fun p => p.2 != h) }
@@ -135,7 +139,26 @@ def KSt.declare (s : KSt) (decl : List (List String)) : KSt :=
       { s with hops := s.hops ++ [(name, .echo (splitCommas ((findKv? args "route").getD ""))
           (((findKv? args "type").bind PType.ofString).getD .ack) ((findNat? args "len").getD 0) ((findNat? args "ovh").getD 20))] }
     | "node" :: name :: rest =>
-      { s with net := { s.net with cfg := { s.net.cfg with nodes := s.net.cfg.nodes ++ [(name, splitCommas (rest.headD ""))] } } }
+      let ips := splitCommas (rest.headD "")
+      let s : KSt := { s with net := { s.net with cfg := { s.net.cfg with nodes := s.net.cfg.nodes ++ [(name, ips)] } } }
+      if !s.net.cfg.defaultConfig then s else
+      -- `default_config::incoming_route` / `outgoing_route`: one "DSL modem" queue pair per address
+      -- (800 kB/s in, 200 kB/s out, 1 ms, 200 kB), created on first use - creation has no effect
+      ips.foldl (fun s ip =>
+        let mk := fun (s : KSt) (nm : String) (bw : Nat) =>
+          let cfg : QCfg := { bw := bw, lat := 1000000, cap := 200000, ser := serFloat bw }
+          { s with hops := s.hops ++ [(nm, .queue s.qs.length)], qs := s.qs ++ [{ name := nm, cfg := cfg }] }
+        let s := mk (mk s ("in@" ++ ip) 800000) ("out@" ++ ip) 200000
+        { s with net := { s.net with cfg := { s.net.cfg with
+            routeIn := (ip, ["in@" ++ ip]) :: s.net.cfg.routeIn, routeOut := (ip, ["out@" ++ ip]) :: s.net.cfg.routeOut } } }) s
+    | ["config", "default"] =>
+      -- `sim::default_config`: the network is one unlimited 30 ms queue; MTU 1475; only `localhost`
+      -- resolves (::1, 127.0.0.1 after 1 us), everything else host_not_found after 100 ms
+      let cfg : QCfg := { bw := 0, lat := 30000000, cap := 0, ser := serFloat 0 }
+      let s : KSt := { s with hops := s.hops ++ [("network", .queue s.qs.length)], qs := s.qs ++ [{ name := "network", cfg := cfg }] }
+      let nc : NetCfg := { s.net.cfg with defaultConfig := true, routeNet := [("*", ["network"])],
+                                          dns := [("localhost", (Ec.ok, ["::1", "127.0.0.1"], 1000))] }
+      { s with net := { s.net with cfg := nc } }
     | "route" :: "in" :: k :: hs => { s with net := { s.net with cfg := { s.net.cfg with routeIn := (k, hs) :: s.net.cfg.routeIn.filter (·.1 != k) } } }
     | "route" :: "out" :: k :: hs => { s with net := { s.net with cfg := { s.net.cfg with routeOut := (k, hs) :: s.net.cfg.routeOut.filter (·.1 != k) } } }
     | "route" :: "net" :: k :: hs => { s with net := { s.net with cfg := { s.net.cfg with routeNet := (k, hs) :: s.net.cfg.routeNet.filter (·.1 != k) } } }
@@ -705,7 +728,7 @@ def doResolverOp (p : KParams) (rp : RParams) (ctx : String) (op : List String) 
               some (res (applyREffs p name x.2 (s.setR name x.1)) "-")
             else
               let req := ((s.net.cfg.ipsOf node).head?).getD "?"
-              let s := s.emit ("L lookup t=" ++ toString s.k.now ++ " req=" ++ req ++ " name=" ++ hexStr host)
+              let s := s.emitL ("L lookup t=" ++ toString s.k.now ++ " req=" ++ req ++ " name=" ++ hexStr host)
               let (err, ips, lat) := (s.net.cfg.dns.lookup host).getD (Ec.hostNotFound, [], 100000000)
               let x := r.resolveName rp s.k.now err ips lat port hn
               some (res (applyREffs p name x.2 (s.setR name x.1)) "-")
